@@ -75,6 +75,11 @@ func guarded(in []byte, scratch *[3][]byte) [3][]byte {
 }
 
 func check(c *core.Ctx, in []byte, scratch *[3][]byte, outcomes *[8]int64) {
+	defer func() {
+		if r := recover(); r != nil {
+			c.Violation(fmt.Sprintf("panic input=%x: %v", in, r), nil)
+		}
+	}()
 	g := guarded(in, scratch)
 	report := func(fn string, got res, want res, d refwire.Defect) {
 		c.Violation(fmt.Sprintf("%s input=%x got=(%d,%d,%d) want=(%d,%d,%d) defect=%v", fn, in, got.num, got.typ, got.n, want.num, want.typ, want.n, d), nil)
